@@ -388,7 +388,8 @@ def tag_filter(prefixes):
     def f(orc):
         if not orc.startswith("(oracle fail"):
             return None
-        tags = [t for t in orc[len("(oracle fail"):].rstrip(")").split() if any(t.startswith(p) for p in prefixes)]
+        # a tag is an atom, or the head of a list carrying details: (c14.history 1 "…")
+        tags = [t.lstrip("(").rstrip(")") for t in orc[len("(oracle fail"):].split() if any(t.lstrip("(").startswith(p) for p in prefixes)]
         return "(oracle fail " + " ".join(tags) + ")" if tags else None
     return f
 
